@@ -92,3 +92,399 @@ def head(ip, b):
 def ent(ip, e, k, n):
     """k-th answer of entropy function e when asked for n bytes"""
     return SBytes(sym.ENT(IV(e.stream), I(k), n if isinstance(n, int) else I(n)))
+
+
+# ======================================================================================================
+# Abstract prime-order group interface (GroupSpec).  `Elt` is an uninterpreted sort; every function takes
+# the ghost id of the group object.  The facts instantiated here are the INTERFACE LAWS (ILAW-*): they are
+# what the two refinements (IntegerGroup for symbolic p,q,g; Ed25519) have to establish, see
+# contracts/groupspec.py and DESIGN.md section 7.
+# ======================================================================================================
+Elt = z3.DeclareSort("Elt")
+_I, _B, _Bo = sym.Int, sym.B, sym.Bool
+f_gadd = z3.Function("gadd", _I, Elt, Elt, Elt)
+f_gmul = z3.Function("gmul", _I, _I, Elt, Elt)
+f_enc = z3.Function("enc", _I, Elt, _B)
+f_dec = z3.Function("dec", _I, _B, Elt)
+f_decodable = z3.Function("decodable", _I, _B, _Bo)
+f_insub = z3.Function("insub", _I, Elt, _Bo)
+f_G = z3.Function("G", _I, Elt)
+f_O = z3.Function("O", _I, Elt)
+f_q = z3.Function("q", _I, _I)
+f_esize = z3.Function("esize", _I, _I)
+f_ssize = z3.Function("ssize", _I, _I)
+f_refid = z3.Function("refid", _I, _Bo)
+f_p2s = z3.Function("p2s", _I, _B, _I)
+f_ae = z3.Function("ae", _I, _B, Elt)
+f_ae_ok = z3.Function("ae_ok", _I, _B, _Bo)
+f_s2b = z3.Function("s2b", _I, _I, _B)
+f_b2s = z3.Function("b2s", _I, _B, _I)
+f_b2s_ok = z3.Function("b2s_ok", _I, _B, _Bo)
+f_rs = z3.Function("rs", _I, _I, _I, _I)
+
+
+def _gid(ip, g):
+    """ghost id of an abstract group object"""
+    ho = ip.ctx.obj(g)
+    if "gid" not in ho.ghost:
+        t = z3.Int("gid.%s" % (ho.label or ho.oid))
+        ho.ghost["gid"] = SInt(t)
+        F = sym.FACTS
+        F.add(f_q(t) >= 2, "ILAW-q")
+        F.add(f_esize(t) >= 1, "ILAW-size")
+        F.add(f_ssize(t) >= 1, "ILAW-size")
+        F.add(f_insub(t, f_G(t)), "ILAW-closure")
+        F.add(f_insub(t, f_O(t)), "ILAW-closure")
+    return ho.ghost["gid"].t
+
+
+def is_abstract_group(ip, g):
+    return isinstance(g, SObj) and ip.ctx.obj(g).clsname() == "GroupSpec"
+
+
+def _reg_elt(gid, a):
+    """facts for an element term in group gid"""
+    if sym.FACTS.reg("elt", gid, a):
+        pass
+    return a
+
+
+def view(ip, e):
+    """mathematical value of an element object"""
+    ho = ip.ctx.obj(e)
+    cn = ho.clsname()
+    if cn == "EltSpec":
+        return ip.getattr(e, "_v", True)
+    if cn == "groups._Element":
+        return ip.getattr(e, "_e", True)
+    raise Unsupported("view of %s" % cn)
+
+
+def mk_elt(ip, label):
+    return SPoint(z3.Const(label, Elt))
+
+
+def group_of(ip, e):
+    ho = ip.ctx.obj(e)
+    cn = ho.clsname()
+    if cn == "EltSpec":
+        return ip.getattr(e, "_g", True)
+    if cn == "groups._Element":
+        return ip.getattr(e, "_group", True)
+    raise Unsupported("group_of %s" % cn)
+
+
+def gq(ip, g):
+    if is_abstract_group(ip, g):
+        return mkint(f_q(_gid(ip, g)))
+    return ip.getattr(g, "q", True)
+
+
+def esize(ip, g):
+    if is_abstract_group(ip, g):
+        return mkint(f_esize(_gid(ip, g)))
+    return ip.getattr(g, "element_size_bytes", True)
+
+
+def ssize(ip, g):
+    if is_abstract_group(ip, g):
+        return mkint(f_ssize(_gid(ip, g)))
+    return ip.getattr(g, "scalar_size_bytes", True)
+
+
+def refuses_identity(ip, g):
+    if is_abstract_group(ip, g):
+        return mkbool(f_refid(_gid(ip, g)))
+    return False
+
+
+def G(ip, g):
+    if is_abstract_group(ip, g):
+        return SPoint(f_G(_gid(ip, g)))
+    return view(ip, ip.getattr(g, "Base", True))
+
+
+def O(ip, g):
+    if is_abstract_group(ip, g):
+        return SPoint(f_O(_gid(ip, g)))
+    return 1
+
+
+def insub(ip, g, a):
+    if is_abstract_group(ip, g):
+        return mkbool(f_insub(_gid(ip, g), a.t))
+    p, q = ip.getattr(g, "p", True), ip.getattr(g, "q", True)
+    return mkbool(z3.And(I(a) > 0, I(a) < I(p), sym.POWMOD(I(a), I(q), I(p)) == 1))
+
+
+def gadd(ip, g, a, b):
+    if is_abstract_group(ip, g):
+        gid = _gid(ip, g)
+        t = f_gadd(gid, a.t, b.t)
+        if sym.FACTS.reg("gadd", gid, a.t, b.t):
+            sym.FACTS.add(z3.Implies(z3.And(f_insub(gid, a.t), f_insub(gid, b.t)), f_insub(gid, t)), "ILAW-closure")
+        return SPoint(t)
+    p = ip.getattr(g, "p", True)
+    return mkint((I(a) * I(b)) % I(p))
+
+
+def gmul(ip, g, n, a):
+    if is_abstract_group(ip, g):
+        gid = _gid(ip, g)
+        t = f_gmul(gid, I(n), a.t)
+        if sym.FACTS.reg("gmul", gid, I(n), a.t):
+            sym.FACTS.add(z3.Implies(f_insub(gid, a.t), f_insub(gid, t)), "ILAW-closure")
+        return SPoint(t)
+    p, q = ip.getattr(g, "p", True), ip.getattr(g, "q", True)
+    return mkint(sym.POWMOD(I(a), I(n) % I(q), I(p)))
+
+
+def enc(ip, g, a):
+    if is_abstract_group(ip, g):
+        gid = _gid(ip, g)
+        t = f_enc(gid, a.t)
+        F = sym.FACTS
+        if F.reg("enc", gid, a.t):
+            sym.regb(t)
+            F.add(z3.Implies(f_insub(gid, a.t), sym.blen(t) == f_esize(gid)), "ILAW-enc-len")
+            F.add(z3.Implies(z3.And(f_insub(gid, a.t), z3.Or(z3.Not(f_refid(gid)), a.t != f_O(gid))),
+                             z3.And(f_decodable(gid, t), f_dec(gid, t) == a.t)), "ILAW-dec-enc")
+            for (g2, b) in F.items("enc"):
+                if g2.eq(gid) and not b.eq(a.t):
+                    F.add(z3.Implies(z3.And(f_insub(gid, a.t), f_insub(gid, b), t == f_enc(gid, b)), a.t == b), "ILAW-enc-inj")
+        return SBytes(t)
+    p = ip.getattr(g, "p", True)
+    return SBytes(sym.mk_bytes(I(size_bytes(ip, p)), I(a)))
+
+
+def decodable(ip, g, b):
+    if is_abstract_group(ip, g):
+        gid = _gid(ip, g)
+        bt = Bt(b)
+        F = sym.FACTS
+        if F.reg("dec", gid, bt):
+            d = f_dec(gid, bt)
+            F.add(z3.Implies(f_decodable(gid, bt),
+                             z3.And(sym.blen(bt) == f_esize(gid), f_insub(gid, d),
+                                    z3.Implies(f_refid(gid), d != f_O(gid)))), "ILAW-dec-strict")
+            e = enc(ip, g, SPoint(d))
+            F.add(z3.Implies(f_decodable(gid, bt), e.t == bt), "ILAW-enc-dec")
+        return mkbool(f_decodable(gid, bt))
+    p = ip.getattr(g, "p", True)
+    v = sym.bval(Bt(b))
+    return mkbool(z3.And(sym.blen(Bt(b)) == I(size_bytes(ip, p)), Bo(insub(ip, g, mkint(v)))))
+
+
+def dec(ip, g, b):
+    if is_abstract_group(ip, g):
+        decodable(ip, g, b)
+        return SPoint(f_dec(_gid(ip, g), Bt(b)))
+    return mkint(sym.bval(Bt(b)))
+
+
+def p2s(ip, g, pw):
+    if is_abstract_group(ip, g):
+        gid = _gid(ip, g)
+        t = f_p2s(gid, Bt(pw))
+        sym.FACTS.add(z3.And(t >= 0, t < f_q(gid)), "ILAW-p2s-range")
+        return mkint(t)
+    q, ss = ip.getattr(g, "q", True), ip.getattr(g, "scalar_size_bytes", True)
+    return p2s_def(ip, pw, ss, q)
+
+
+def p2s_def(ip, pw, ss, q):
+    """C14: big-endian integer of HKDF-SHA256(pw, salt='', info='SPAKE2 pw', ss+16 bytes) reduced mod q"""
+    h = sym.HKDF(Bt(pw), sym.lit_bytes(b""), sym.lit_bytes(b"SPAKE2 pw"), I(ss) + 16 if not isinstance(ss, int) else ss + 16)
+    return mkint(sym.bval(h) % I(q))
+
+
+def ae(ip, g, seed):
+    if is_abstract_group(ip, g):
+        gid = _gid(ip, g)
+        t = f_ae(gid, Bt(seed))
+        sym.FACTS.add(z3.Implies(f_ae_ok(gid, Bt(seed)), f_insub(gid, t)), "ILAW-ae-insub")
+        return SPoint(t)
+    p, q, es = ip.getattr(g, "p", True), ip.getattr(g, "q", True), ip.getattr(g, "element_size_bytes", True)
+    h = sym.HKDF(Bt(seed), sym.lit_bytes(b""), sym.lit_bytes(b"SPAKE2 arbitrary element"), I(es))
+    return mkint(sym.POWMOD(sym.bval(h) % I(p), (I(p) - 1) / I(q), I(p)))
+
+
+def ae_ok(ip, g, seed):
+    if is_abstract_group(ip, g):
+        return mkbool(f_ae_ok(_gid(ip, g), Bt(seed)))
+    raise Unsupported("ae_ok on concrete group")
+
+
+def s2b(ip, g, i):
+    if is_abstract_group(ip, g):
+        gid = _gid(ip, g)
+        t = f_s2b(gid, I(i))
+        F = sym.FACTS
+        if F.reg("s2b", gid, I(i)):
+            sym.regb(t)
+            F.add(z3.Implies(z3.And(I(i) >= 0, I(i) < f_q(gid)),
+                             z3.And(sym.blen(t) == f_ssize(gid), f_b2s_ok(gid, t), f_b2s(gid, t) == I(i))), "ILAW-scalar-roundtrip")
+        return SBytes(t)
+    q = ip.getattr(g, "q", True)
+    return SBytes(sym.mk_bytes(I(size_bytes(ip, q)), I(i)))
+
+
+def b2s_ok(ip, g, b):
+    if is_abstract_group(ip, g):
+        gid = _gid(ip, g)
+        sym.FACTS.add(z3.Implies(f_b2s_ok(gid, Bt(b)), sym.blen(Bt(b)) == f_ssize(gid)), "ILAW-b2s-len")
+        return mkbool(f_b2s_ok(gid, Bt(b)))
+    q = ip.getattr(g, "q", True)
+    ss = ip.getattr(g, "scalar_size_bytes", True)
+    return mkbool(z3.And(sym.blen(Bt(b)) == I(ss), sym.bval(Bt(b)) < I(q)))
+
+
+def b2s(ip, g, b):
+    if is_abstract_group(ip, g):
+        return mkint(f_b2s(_gid(ip, g), Bt(b)))
+    return mkint(sym.bval(Bt(b)))
+
+
+def rs(ip, g, e, k):
+    """the scalar group g draws from entropy function e starting at ghost position k"""
+    if is_abstract_group(ip, g):
+        gid = _gid(ip, g)
+        t = f_rs(gid, IV(e.stream), I(k))
+        sym.FACTS.add(z3.And(t >= 0, t < f_q(gid)), "ILAW-rs-range")
+        return mkint(t)
+    raise Unsupported("rs on concrete group")
+
+
+# ---- protocol-level vocabulary (written from the statements of C03/C10/C17, not from the code) -----------
+def side(ip, s):
+    cn = ip.ctx.obj(s).clsname() if isinstance(s, SObj) else s.cinfo.qual
+    return {"spake2.SPAKE2_A": b"A", "spake2.SPAKE2_B": b"B", "spake2.SPAKE2_Symmetric": b"S"}[cn]
+
+
+def _role(ip, s):
+    cn = ip.ctx.obj(s).clsname() if isinstance(s, SObj) else s.cinfo.qual
+    return cn.split("_")[-1][0]     # 'A', 'B', 'S'
+
+
+def blind(ip, s, params=None):
+    """the blinding element of the role: M for A, N for B, S for symmetric"""
+    params = params if params is not None else ip.getattr(s, "params", True)
+    return view(ip, ip.getattr(params, {"A": "M", "B": "N", "S": "S"}[_role(ip, s)], True))
+
+
+def unblind(ip, s, params=None):
+    params = params if params is not None else ip.getattr(s, "params", True)
+    return view(ip, ip.getattr(params, {"A": "N", "B": "M", "S": "S"}[_role(ip, s)], True))
+
+
+def transcript_asym(ip, pw, idA, idB, X, Y, K):
+    return SBytes(sym.SHA(sym.concat_many([sym.SHA(Bt(pw)), sym.SHA(Bt(idA)), sym.SHA(Bt(idB)), Bt(X), Bt(Y), Bt(K)])))
+
+
+def transcript_sym(ip, pw, idS, m1, m2, K):
+    lo, hi = bmin(ip, m1, m2), bmax(ip, m1, m2)
+    return SBytes(sym.SHA(sym.concat_many([sym.SHA(Bt(pw)), sym.SHA(Bt(idS)), lo.t, hi.t, Bt(K)])))
+
+
+def msg_elem(ip, s, x):
+    """x*G + w*blind  (C03): the element sent by start()"""
+    params = ip.getattr(s, "params", True)
+    g = ip.getattr(params, "group", True)
+    w = ip.getattr(s, "pw_scalar", True)
+    return gadd(ip, g, gmul(ip, g, x, G(ip, g)), gmul(ip, g, w, blind(ip, s)))
+
+
+def key_elem(ip, s, x, peer):
+    """x*(peer - w*unblind)  (C03)"""
+    params = ip.getattr(s, "params", True)
+    g = ip.getattr(params, "group", True)
+    w = ip.getattr(s, "pw_scalar", True)
+    return gmul(ip, g, x, gadd(ip, g, peer, gmul(ip, g, mkint(-I(w)), unblind(ip, s))))
+
+
+def session_key(ip, s, peer_msg):
+    """key returned by finish() for the (side-stripped) peer message, from the C03 statement"""
+    params = ip.getattr(s, "params", True)
+    g = ip.getattr(params, "group", True)
+    x = ip.getattr(s, "xy_scalar", True)
+    out = ip.getattr(s, "outbound_message", True)
+    pw = ip.getattr(s, "pw", True)
+    K = enc(ip, g, key_elem(ip, s, x, dec(ip, g, peer_msg)))
+    r = _role(ip, s)
+    if r == "A":
+        return transcript_asym(ip, pw, ip.getattr(s, "idA", True), ip.getattr(s, "idB", True), out, peer_msg, K)
+    if r == "B":
+        return transcript_asym(ip, pw, ip.getattr(s, "idA", True), ip.getattr(s, "idB", True), peer_msg, out, K)
+    return transcript_sym(ip, pw, ip.getattr(s, "idSymmetric", True), peer_msg, out, K)
+
+
+def fingerprint(ip, role_of, params):
+    """hashed_params (C10): SHA256(arbitrary_element('') || scalar(password_to_scalar('')) || M || N)  (sym: ... || S), hex"""
+    g = ip.getattr(params, "group", True)
+    pieces = [enc(ip, g, ae(ip, g, b"")).t, s2b(ip, g, p2s(ip, g, b"")).t]
+    if _role(ip, role_of) == "S":
+        pieces.append(enc(ip, g, view(ip, ip.getattr(params, "S", True))).t)
+    else:
+        pieces.append(enc(ip, g, view(ip, ip.getattr(params, "M", True))).t)
+        pieces.append(enc(ip, g, view(ip, ip.getattr(params, "N", True))).t)
+    return SStr(sym.HEXL(sym.SHA(sym.concat_many(pieces))))
+
+
+def state_dict(ip, s):
+    """the persisted state of session s in the released format (C10)"""
+    params = ip.getattr(s, "params", True)
+    g = ip.getattr(params, "group", True)
+    d = {"hashed_params": fingerprint(ip, s, params),
+         "side": side(ip, s).decode("ascii"),
+         "password": hexl(ip, ip.getattr(s, "pw", True)),
+         "xy_scalar": hexl(ip, s2b(ip, g, ip.getattr(s, "xy_scalar", True)))}
+    if _role(ip, s) == "S":
+        d["idS"] = hexl(ip, ip.getattr(s, "idSymmetric", True))
+    else:
+        d["idA"] = hexl(ip, ip.getattr(s, "idA", True))
+        d["idB"] = hexl(ip, ip.getattr(s, "idB", True))
+    return d
+
+
+def json_dict(ip, v):
+    if isinstance(v, SOpaque) and v.kind in ("jsonbytes", "jsontext"):
+        return dict(v.data)
+    raise Unsupported("json_dict of %r" % (v,))
+
+
+def is_json_bytes(ip, v):
+    return isinstance(v, SOpaque) and v.kind == "jsonbytes"
+
+
+def unhex(ip, s):
+    return SBytes(sym.UNHEX(St(s)))
+
+
+def ascii_bytes(ip, s):
+    return SBytes(St(s))
+
+
+def entropy_forbidden(ip, e):
+    """does calling e raise (instead of returning bytes)?"""
+    if isinstance(e, SEntropy):
+        return e.forbidden
+    if isinstance(e, SFunc):
+        try:
+            ip.call(e, [SInt(sym.fresh("n"))], {})
+        except Raise:
+            return True
+        return False
+    raise Unsupported("entropy_forbidden(%r)" % (e,))
+
+
+def same_obj(ip, a, b):
+    return ip.identical(a, b)
+
+
+def entropy_calls(ip):
+    """number of entropy draws made so far on this path (direct calls or callee consumption)"""
+    return len(ip.ctx.entropy_log)
+
+
+def entropy_only_via(ip, callee):
+    return all(str(n) == "callee:" + callee for _, n in ip.ctx.entropy_log)
